@@ -526,7 +526,7 @@ impl<'a> Sem<'a> {
         }
         let deep = depth >= 2;
         // a field of a def (or of a class-typed variable) of exactly this type: `d.f`
-        if !deep && matches!(ty, Ty::Str | Ty::Bit | Ty::List(_)) && self.rng.chance(1, 8) && self.has_field_access(ty) {
+        if !deep && matches!(ty, Ty::Str | Ty::Bit | Ty::List(_)) && self.rng.chance(1, 4) && self.has_field_access(ty) {
             self.field_access(ty, depth);
             return;
         }
